@@ -34,7 +34,9 @@ ASSERTABLE = 8          # the last two keys never get facts
 VALS = [['a', 'a'], ['a', 'b'], ['a', 'c'], ['i', 1], ['i', 2], ['f', 'f', [['a', 'a']]], TM.J(TM.mklist([('a', 'a'), ('a', 'b')])),
         ['a', '[]'], TM.J(TM.mklist([('a', 'a')])), ['a', 'x y'], ['a', ''], ['i', 0],
         # plain Python strings are constants of their own: 'a' the string is not a the atom
-        ['s', 'a'], ['s', 'b'], ['f', 'f', [['s', 'a']]]]
+        ['s', 'a'], ['s', 'b'], ['f', 'f', [['s', 'a']]],
+        # constants equal to another one of a different type, an improper list, a '.' structure that is no list cell
+        ['i', 1.0], ['i', 0.0], ['f', '.', [['a', 'a'], ['a', 'b']]], ['f', '.', [['a', 'a']]]]
 
 _WRAPPERS = None
 
@@ -45,7 +47,8 @@ def wrapper_source():
         lines.append('w_%s(T) :- %s(T).' % (kind, kind))
         lines.append('w_%s_v(T) :- G = T, %s(G).' % (kind, kind))
     for name, ar in KEYS:
-        args = ','.join('A%d' % i for i in range(ar))
+        # (the wrappers of predicates with an odd arity spell their variables with a leading underscore)
+        args = ','.join(('_A%d' if ar % 2 else 'A%d') % i for i in range(ar))
         goal = '%s(%s)' % (name, args) if ar else name
         for kind in ('asserta', 'assertz', 'retract', 'retractall'):
             head = 'i_%s_%s_%d' % (kind, name, ar)
@@ -79,7 +82,7 @@ def gen(seed, tier):
     p_bound = rng.choice((0.1, 0.3, 0.5))
     nkeys = rng.choice((2, 4, 10))
     keyset = rng.sample(range(len(KEYS)), nkeys)
-    small_vals = rng.choice((2, 3, 7, 12, 15))
+    small_vals = rng.choice((2, 3, 7, 12, 15, 19))
 
     p_reused = rng.choice((0.0, 0.0, 0.3, 0.6))
 
